@@ -206,20 +206,33 @@ def _mutates_param(ctx, fi, idx, seen=None):
             for t in n.targets:
                 if isinstance(t, ast.Name):
                     names.add(t.id)
+    # a name that is re-bound to a NEW object (a slice, list(...), a copy, a comprehension) at the top
+    # level of the function no longer refers to the argument from that line on
+    fresh_from = {}
+    for st in fi.node.body:
+        if isinstance(st, ast.Assign) and len(st.targets) == 1 and isinstance(st.targets[0], ast.Name) \
+                and st.targets[0].id in names:
+            v = st.value
+            new_obj = (isinstance(v, ast.Subscript) and isinstance(v.slice, ast.Slice)) \
+                or isinstance(v, (ast.ListComp, ast.List)) \
+                or (isinstance(v, ast.Call) and (dotted(v.func) in ('list', 'sorted', 'copy.copy', 'copy.deepcopy')
+                                                 or (isinstance(v.func, ast.Attribute) and v.func.attr == 'copy')))
+            if new_obj:
+                fresh_from.setdefault(st.targets[0].id, st.lineno)
+    def _still_arg(name, node):
+        return not (name in fresh_from and node.lineno > fresh_from[name])
     for n in walk_local(fi.node):
         if isinstance(n, ast.Call) and isinstance(n.func, ast.Attribute) \
                 and isinstance(n.func.value, ast.Name) and n.func.value.id in names \
-                and n.func.attr in MUT:
-            # a re-binding before the mutation would make this imprecise; the
-            # repo's helpers mutate first, so treat as mutation
+                and n.func.attr in MUT and _still_arg(n.func.value.id, n):
             return True
         if isinstance(n, ast.Subscript) and isinstance(n.ctx, ast.Store) \
-                and isinstance(n.value, ast.Name) and n.value.id in names:
+                and isinstance(n.value, ast.Name) and n.value.id in names and _still_arg(n.value.id, n):
             return True
         if isinstance(n, ast.Call) and isinstance(n.func, ast.Name):
             tgt = ctx.repo.find_funcs(f"{fi.module.name}:{n.func.id}")
             for j, a in enumerate(n.args):
-                if isinstance(a, ast.Name) and a.id in names:
+                if isinstance(a, ast.Name) and a.id in names and _still_arg(a.id, n):
                     for t in tgt:
                         if _mutates_param(ctx, t, j, seen):
                             return True
